@@ -1,0 +1,89 @@
+//go:build verif
+
+package fzf
+
+import (
+	"bufio"
+	"fmt"
+	"net"
+	"os"
+	"strings"
+	"sync"
+)
+
+// Verification hook points (build tag "verif"). When $FZF_VERIF_SOCK names a
+// unix socket, every point listed in $FZF_VERIF_POINTS (comma-separated; "*"
+// for all) is reported as "<id> <name>\n" and the calling goroutine blocks
+// until the controller answers "<id>\n". Without the variable the points are
+// no-ops.
+var (
+	verifConn   net.Conn
+	verifMu     sync.Mutex
+	verifWait   = map[int]chan struct{}{}
+	verifSeq    int
+	verifOnce   sync.Once
+	verifPoints map[string]bool
+	verifAll    bool
+)
+
+func verifPoint(name string) {
+	verifOnce.Do(func() {
+		sock := os.Getenv("FZF_VERIF_SOCK")
+		if sock == "" {
+			return
+		}
+		verifPoints = map[string]bool{}
+		for _, p := range strings.Split(os.Getenv("FZF_VERIF_POINTS"), ",") {
+			if p == "*" {
+				verifAll = true
+			}
+			verifPoints[p] = true
+		}
+		c, err := net.Dial("unix", sock)
+		if err != nil {
+			return
+		}
+		verifConn = c
+		go func() {
+			r := bufio.NewReader(c)
+			for {
+				line, err := r.ReadString('\n')
+				if err != nil {
+					// Controller is gone: release everything
+					verifMu.Lock()
+					verifConn = nil
+					for id, ch := range verifWait {
+						delete(verifWait, id)
+						close(ch)
+					}
+					verifMu.Unlock()
+					return
+				}
+				var id int
+				fmt.Sscanf(line, "%d", &id)
+				verifMu.Lock()
+				ch := verifWait[id]
+				delete(verifWait, id)
+				verifMu.Unlock()
+				if ch != nil {
+					close(ch)
+				}
+			}
+		}()
+	})
+	if verifConn == nil || !(verifAll || verifPoints[name]) {
+		return
+	}
+	verifMu.Lock()
+	if verifConn == nil {
+		verifMu.Unlock()
+		return
+	}
+	verifSeq++
+	id := verifSeq
+	ch := make(chan struct{})
+	verifWait[id] = ch
+	fmt.Fprintf(verifConn, "%d %s\n", id, name)
+	verifMu.Unlock()
+	<-ch
+}
